@@ -17,6 +17,11 @@ logger = logging.getLogger('IsoQuant')
 
 
 def merge_file_list(fname, label, chr_ids):
+    # per-chromosome files are named <label>_<chr_id><suffix>, where <label> starts the base name of the merged file;
+    # the label may occur in the suffix as well (e.g. experiments named "t" or "gene")
+    dir_name, base_name = os.path.split(fname)
+    if base_name.startswith(label):
+        return [os.path.join(dir_name, f"{label}_{chr_id}" + base_name[len(label):]) for chr_id in chr_ids]
     return [rreplace(fname, label, f"{label}_{chr_id}") for chr_id in chr_ids]
 
 
